@@ -51,7 +51,16 @@ def build(case):
     raw = np.array(case.get("raw_variances", p["variances"]), dtype=float)
     fl = np.array(p["floors"], dtype=float) if np.ndim(p["floors"]) else float(p["floors"])
     via_ctor = bool(case.get("weights_via_constructor"))
-    g = GMMMachine(int(p["C"]), weights=np.array(p["weights"], dtype=float)) if via_ctor else GMMMachine(int(p["C"]))
+    kw = {}
+    if case.get("as_map"):
+        # a MAP machine (adapted from some prior) holding these parameters is the same mixture
+        prior = GMMMachine(int(p["C"]))
+        prior.means = np.array(p["means"], dtype=float) * 0.5 + 1.0
+        prior.variances = np.ones_like(np.array(p["means"], dtype=float))
+        kw = dict(trainer="map", ubm=prior, update_variances=bool(case["as_map"] == "upd_var"))
+    if via_ctor:
+        kw["weights"] = np.array(p["weights"], dtype=float)
+    g = GMMMachine(int(p["C"]), **kw)
     order = case.get("order", "floors_first")
     means = np.array(p["means"], dtype=float)
     if case.get("int_params"):
@@ -94,7 +103,8 @@ def g_formula(draw):
     how = gen.presentation(draw)
     if how == "int":
         X = gen.integral(X)
-    c = {"p": p, "X": X, "kind": kind, "rare": rare, "weights_via_constructor": gen.choice(draw, [False, False, True]), "order": gen.choice(draw, ["floors_first", "floors_last", "floors_after_a_likelihood"]),
+    c = {"p": p, "X": X, "kind": kind, "rare": rare, "weights_via_constructor": gen.choice(draw, [False, False, True]),
+         "as_map": gen.choice(draw, [None, None, None, "plain", "upd_var"]), "order": gen.choice(draw, ["floors_first", "floors_last", "floors_after_a_likelihood"]),
          "how": how}
     if gen.choice(draw, [False, True]) and p["floor_kind"] not in ("default", "zero"):
         # some variances are handed over BELOW their floor: the machine must clamp them (and normalise accordingly)
